@@ -21,7 +21,7 @@ CONSTANTS Execs0,      \* accounts holding the executor role at deployment
           DPreds, DSalts, DExecs,   \* descriptor fields on offer
           MetaLens,    \* descriptor vector lengths on offer
           Subs,        \* extra sub-invocation in the controller's entry ("none" or a call name)
-          XAuths,      \* sets of accounts authorizing the executor tuple
+          XAuths,      \* sets of accounts authorizing the executor tuple (keys of XMenu)
           ChkCtxs,     \* context vectors for the direct __check_auth entry (keys of CtxMenu)
           Depth, Now0, Min0,
           BUG_C09_ZIP, \* TRUE: the pinned code (contexts zipped with descriptors, no length check)
@@ -122,6 +122,7 @@ ImplEffect(o, t) ==
 CtxMenu == [ud0 |-> <<"ud0">>, ud3 |-> <<"ud3">>, foreign |-> <<"foreign">>, create |-> <<"create">>,
             ud0_ud3 |-> <<"ud0", "ud3">>, ud0_ud0 |-> <<"ud0", "ud0">>, ud0_foreign |-> <<"ud0", "foreign">>,
             grXs |-> <<"grXs">>, ext |-> <<"ext">>, empty |-> <<>>]
+XMenu == [none |-> {}, x |-> {"x"}, n |-> {"n"}, s |-> {"s"}, xns |-> {"x", "n", "s"}]
 Descs == [pred : DPreds, salt : DSalts, exec : DExecs]
 MetaSets == (IF 0 \in MetaLens THEN {<<>>} ELSE {}) \cup UNION {[1..n -> Descs] : n \in MetaLens \ {0}}
 Blank == [op |-> "none", id |-> "none", call |-> "none", who |-> "none", auth |-> FALSE, delay |-> 0, entry |-> FALSE,
@@ -132,9 +133,9 @@ Ops ==
       i \in SchedOps, w \in SchedWhos, a \in Auths, d \in Delays}
   \cup {[Blank EXCEPT !.op = "cancel", !.id = i, !.who = w, !.auth = a] : i \in SchedOps, w \in SchedWhos, a \in Auths}
   \cup {[Blank EXCEPT !.op = "execute", !.id = i, !.who = w, !.auth = a] : i \in SchedOps, w \in ExecWhos, a \in Auths}
-  \cup {[Blank EXCEPT !.op = "admin", !.call = k, !.entry = en, !.metas = ms, !.sub = sb, !.xauth = xa] :
+  \cup {[Blank EXCEPT !.op = "admin", !.call = k, !.entry = en, !.metas = ms, !.sub = sb, !.xauth = XMenu[xa]] :
       k \in Calls, en \in Entries, ms \in MetaSets, sb \in Subs, xa \in XAuths}
-  \cup {[Blank EXCEPT !.op = "chk", !.ctxs = CtxMenu[cs], !.metas = ms, !.xauth = xa] : cs \in ChkCtxs, ms \in MetaSets, xa \in XAuths}
+  \cup {[Blank EXCEPT !.op = "chk", !.ctxs = CtxMenu[cs], !.metas = ms, !.xauth = XMenu[xa]] : cs \in ChkCtxs, ms \in MetaSets, xa \in XAuths}
 
 Init == /\ led = [i \in Names |-> 0] /\ minD = Min0 /\ roles = Roles0 /\ admin = "c" /\ pend = "none"
         /\ radm = [r \in Roles |-> "none"] /\ now = Now0
